@@ -45,6 +45,10 @@ def match_known(known, prop, item):
         if k.get("status") != "known" or k.get("property") != prop:
             continue
         m = k.get("match", {})
+        if "any" in m:
+            if any(match_known([dict(k, match=alt)], prop, item) for alt in m["any"]):
+                return k
+            continue
         if "unit" in m and m["unit"] != item.get("unit"):
             continue
         if "clause_prefix" in m and not str(item.get("clause", "")).startswith(m["clause_prefix"]):
@@ -264,7 +268,7 @@ def main(argv=None):
     wall = time.time() - t0
     n_known_refuted = sum(1 for o in refuted if match_known(known, prop, {"unit": o["unit"], "clause": o["clause"], "path": o.get("path", []), "witness": o.get("model")}))
     proved = sum(1 for o in vcs if o.get("status") == "proved")
-    level = spec.get("level", "proof")
+    level = spec.get("category", "proof")
     if n_known_refuted or known_lines or spec.get("force_other"):
         level = "other"
     by_backend = collections.Counter(o.get("backend", "?") for o in vcs if o.get("status") == "proved")
